@@ -294,14 +294,30 @@ var quietLogger = func() *logrus.Entry {
 // variant over the same event set ("" if none). Only values both define are
 // compared for evicted events; decided-ness itself must agree.
 func Compare(ref, v *Outcome, sameSet bool) string {
+	_, d := CompareKind(ref, v, sameSet)
+	return d
+}
+
+// CompareKind compares two outcomes. kind "conflict": some value that both
+// runs have decided differs (or the variant failed); kind "progress": no
+// conflict, but one run has decided something the other has not (only
+// reported with sameSet, except for decisions the variant made and the
+// reference did not). Conflicts are looked for first, everywhere.
+func CompareKind(ref, v *Outcome, sameSet bool) (kind, diff string) {
 	if v.Err != "" && ref.Err == "" {
-		return "variant failed: " + v.Err
+		return "conflict", "variant failed: " + v.Err
 	}
 	keys := make([]string, 0, len(v.Events))
 	for k := range v.Events {
 		keys = append(keys, k)
 	}
 	sort.Strings(keys)
+	rounds := make([]int, 0, len(v.Fame))
+	for r := range v.Fame {
+		rounds = append(rounds, r)
+	}
+	sort.Ints(rounds)
+	// ---- conflicts
 	for _, k := range keys {
 		a, ok := ref.Events[k]
 		b := v.Events[k]
@@ -309,77 +325,106 @@ func Compare(ref, v *Outcome, sameSet bool) string {
 			continue
 		}
 		if a.HasRound && b.HasRound && (a.Round != b.Round || a.Witness != b.Witness) {
-			return fmt.Sprintf("event %s: round/witness %d/%v vs %d/%v", k[:10], a.Round, a.Witness, b.Round, b.Witness)
+			return "conflict", fmt.Sprintf("event %s: round/witness %d/%v vs %d/%v", k[:10], a.Round, a.Witness, b.Round, b.Witness)
 		}
 		if a.HasLamport && b.HasLamport && a.Lamport != b.Lamport {
-			return fmt.Sprintf("event %s: Lamport timestamp %d vs %d", k[:10], a.Lamport, b.Lamport)
-		}
-		if sameSet && a.HasRound != b.HasRound {
-			return fmt.Sprintf("event %s: round assigned %v vs %v", k[:10], a.HasRound, b.HasRound)
+			return "conflict", fmt.Sprintf("event %s: Lamport timestamp %d vs %d", k[:10], a.Lamport, b.Lamport)
 		}
 		if b.HasRR && a.HasRR && a.RR != b.RR {
-			return fmt.Sprintf("event %s: round-received %d vs %d", k[:10], a.RR, b.RR)
-		}
-		if b.HasRR && !a.HasRR {
-			return fmt.Sprintf("event %s: round-received %d decided in the variant, undecided in the reference", k[:10], b.RR)
-		}
-		if sameSet && a.HasRR && !b.HasRR {
-			return fmt.Sprintf("event %s: round-received %d decided in the reference, undecided in the variant", k[:10], a.RR)
+			return "conflict", fmt.Sprintf("event %s: round-received %d vs %d", k[:10], a.RR, b.RR)
 		}
 	}
 	// Fame. Once a round's election is closed, a witness that arrives later is never voted on: its
 	// fame stays "undefined" on that instance and it is never famous ("a witness that is not yet known
 	// when a super-majority of witnesses are already decided has no chance of ever being famous").
 	// For closed rounds undefined therefore counts as not famous; the closing itself must agree.
-	for r, fm := range v.Fame {
-		rf := ref.Fame[r]
+	for _, r := range rounds {
+		fm, rf := v.Fame[r], ref.Fame[r]
 		closed := ref.Decided[r] && v.Decided[r]
-		for w, f := range fm {
-			g, ok := rf[w]
-			if !ok && closed {
-				g, ok = 2, true
+		ws := make([]string, 0, len(fm)+len(rf))
+		for w := range fm {
+			ws = append(ws, w)
+		}
+		for w := range rf {
+			if _, dup := fm[w]; !dup {
+				ws = append(ws, w)
 			}
-			if ok && g != f {
-				return fmt.Sprintf("round %d witness %s: fame %d vs %d", r, w[:10], g, f)
-			} else if !ok {
-				return fmt.Sprintf("round %d witness %s: fame decided (%d) in the variant only", r, w[:10], f)
+		}
+		sort.Strings(ws)
+		for _, w := range ws {
+			f, okf := fm[w]
+			g, okg := rf[w]
+			if closed {
+				if !okf {
+					f, okf = 2, true
+				}
+				if !okg {
+					g, okg = 2, true
+				}
+			}
+			if okf && okg && f != g {
+				return "conflict", fmt.Sprintf("round %d witness %s: fame %d vs %d", r, w[:10], g, f)
+			}
+		}
+	}
+	frs := make([]int, 0, len(v.Frames))
+	for r := range v.Frames {
+		frs = append(frs, r)
+	}
+	sort.Ints(frs)
+	for _, r := range frs {
+		if g, ok := ref.Frames[r]; ok && g != v.Frames[r] {
+			return "conflict", fmt.Sprintf("frame of round %d: hash %s vs %s", r, g, v.Frames[r])
+		}
+	}
+	for i, b := range v.Blocks {
+		if i < len(ref.Blocks) && ref.Blocks[i] != b {
+			return "conflict", fmt.Sprintf("block %d: %s vs %s", i, ref.BlockD[i], v.BlockD[i])
+		}
+	}
+	// ---- progress
+	for _, k := range keys {
+		a, ok := ref.Events[k]
+		b := v.Events[k]
+		if !ok {
+			continue
+		}
+		if sameSet && a.HasRound != b.HasRound {
+			return "progress", fmt.Sprintf("event %s: round assigned %v vs %v", k[:10], a.HasRound, b.HasRound)
+		}
+		if b.HasRR && !a.HasRR {
+			return "progress", fmt.Sprintf("event %s: round-received %d decided in the variant, undecided in the reference", k[:10], b.RR)
+		}
+		if sameSet && a.HasRR && !b.HasRR {
+			return "progress", fmt.Sprintf("event %s: round-received %d decided in the reference, undecided in the variant", k[:10], a.RR)
+		}
+	}
+	for _, r := range rounds {
+		fm, rf := v.Fame[r], ref.Fame[r]
+		closed := ref.Decided[r] && v.Decided[r]
+		if closed {
+			continue
+		}
+		for w, f := range fm {
+			if _, ok := rf[w]; !ok {
+				return "progress", fmt.Sprintf("round %d witness %s: fame decided (%d) in the variant only", r, w[:10], f)
 			}
 		}
 		if sameSet {
 			for w, g := range rf {
-				f, ok := fm[w]
-				if !ok && closed {
-					f, ok = 2, true
-				}
-				if !ok {
-					return fmt.Sprintf("round %d witness %s: fame decided (%d) in the reference only", r, w[:10], g)
-				}
-				if f != g {
-					return fmt.Sprintf("round %d witness %s: fame %d vs %d", r, w[:10], g, f)
+				if _, ok := fm[w]; !ok {
+					return "progress", fmt.Sprintf("round %d witness %s: fame decided (%d) in the reference only", r, w[:10], g)
 				}
 			}
 			if ref.Decided[r] != v.Decided[r] {
-				return fmt.Sprintf("round %d: fame election closed in one run only (reference %v, variant %v)", r, ref.Decided[r], v.Decided[r])
+				return "progress", fmt.Sprintf("round %d: fame election closed in one run only (reference %v, variant %v)", r, ref.Decided[r], v.Decided[r])
 			}
 		}
 	}
-	for r, fh := range v.Frames {
-		if g, ok := ref.Frames[r]; ok && g != fh {
-			return fmt.Sprintf("frame of round %d: hash %s vs %s", r, g, fh)
-		}
+	if len(v.Blocks) > len(ref.Blocks) || sameSet && len(v.Blocks) != len(ref.Blocks) {
+		return "progress", fmt.Sprintf("variant delivered %d blocks, reference %d", len(v.Blocks), len(ref.Blocks))
 	}
-	for i, b := range v.Blocks {
-		if i >= len(ref.Blocks) {
-			return fmt.Sprintf("variant delivered %d blocks, reference %d", len(v.Blocks), len(ref.Blocks))
-		}
-		if ref.Blocks[i] != b {
-			return fmt.Sprintf("block %d: %s vs %s", i, ref.BlockD[i], v.BlockD[i])
-		}
-	}
-	if sameSet && len(v.Blocks) != len(ref.Blocks) {
-		return fmt.Sprintf("variant delivered %d blocks, reference %d", len(v.Blocks), len(ref.Blocks))
-	}
-	return ""
+	return "", ""
 }
 
 // RecStore counts reads that hit an item that was stored earlier and has been
